@@ -285,8 +285,11 @@ def rule_c(ctx, ix, reg, classes):
         for k, fs in sinfo.keys.items():
             saved |= {base_field(x) for x in fs}
         restored = set()
+        restored_w = set()      # restored from keys the saver really writes
         for k, fl in linfo.key_fields.items():
             restored |= {base_field(x) for x in fl}
+            if k in sinfo.written:
+                restored_w |= {base_field(x) for x in fl}
         restored |= {base_field(x) for x in linfo.post_fields}
         # derived closure through the constructor
         changed = True
@@ -322,7 +325,19 @@ def rule_c(ctx, ix, reg, classes):
                     changed = True
         if sinfo.raises and not sinfo.keys:
             continue
-        miss_s = sorted(B - saved_closure - const_only - restored)
+        changed = True
+        while changed:
+            changed = False
+            for fld, srcs in cf.field_src.items():
+                b = base_field(fld)
+                if b in restored_w:
+                    continue
+                fsrc = [s_[1] for s_ in srcs if s_[0] == 'field']
+                psrc = [s_ for s_ in srcs if s_[0] == 'param']
+                if fsrc and not psrc and all(base_field(x) in restored_w for x in fsrc):
+                    restored_w.add(b)
+                    changed = True
+        miss_s = sorted(B - saved_closure - const_only - restored_w)
         ctx.ob(R2, c.construct + ' saver', 'behaviour fields %s are all written by the saver' % sorted(B), not miss_s,
                detail='%s\'s behaviour reads field(s) %s that its saver %s never writes: the restored object behaves '
                       'differently' % (c.name, miss_s, rec['sfunc'].construct), where=where(rec['sfunc']))
